@@ -288,12 +288,12 @@ def jobs(tier):
          .replace('@LATTICE@', exl.body).replace('@ASSIGN@', exa.body))
     out = []
     ncmax = 4
-    dags = enumerate_dags(ncmax if tier != 'thorough' else 5, limit=(None if tier != 'thorough' else 150))
+    dags = enumerate_dags(ncmax)     # 5-class graphs with 3 symbolic parameter placements exceed the memory / time budget of a job (tried: 150 sampled graphs, most killed)
     for (n, edges_bits, label) in dags:
         nc, npm = max(n, 1), 3
         j = Job(unit='slots', config='assign_slots-%s' % label, c_text=c, entry='h_assign_slots', kind='bounded', unwind=max(nc, npm) + 1,
                 defines=['NC=%d' % nc, 'NP=%d' % npm, 'YV_N=%d' % n, 'YV_EDGES=%dull' % edges_bits], object_bits=10,
-                bound='assign_slots: EVERY transitively reduced inheritance DAG over <= 4 classes (thorough: a sample of 150 of those over 5) in every registration '
+                bound='assign_slots: EVERY transitively reduced inheritance DAG over <= 4 classes in every registration '
                       'order - one job per DAG - with <= 3 (method, virtual parameter) pairs placed on any classes (symbolic)',
                 min_obligations=5, min_cover=1,
                 functions=['%s %s sha256:%s' % (e.where(), nm, e.sha()) for e, nm in
